@@ -709,6 +709,31 @@ theorem adaptive_count (n : Nat) (hn : 0 < n) (cs : List (Option (List Rat × Li
   simp only [adaptive0] at r2
   omega
 
+/-- **Adaptive samplers, a call with a loss vector after any history** `cs` (calls with/without loss, right or wrong
+    length; `last` = the point set the sampler holds, i.e. what its last successful call returned): the call succeeds,
+    returns `n` rows, keeps exactly the rows whose previous loss is at or above `min + (max − min)·thrᵢ` and replaces every
+    other row `i` by row `i` of the fresh uniform sample drawn in this call (draw number `cs.length`). -/
+theorem adaptive_history (n : Nat) (hn : 0 < n) (cs : List (Option (List Rat × List Rat))) (l thr : List Rat) (last : List Row)
+    (h : (adaptiveExec (adaptive0 n) cs).last = some last) (hl : l.length = n) (hthr : thr.length = n) :
+    ∃ out, (adaptiveRun (adaptive0 n) (cs ++ [some (l, thr)]))[cs.length]? = some (.ok out) ∧ out.length = n ∧
+      ∀ (i : Nat) (x u : Rat) (old : Row), l[i]? = some x → thr[i]? = some u → last[i]? = some old →
+        out[i]? = some (if lmin l + (lmax l - lmin l) * u ≤ x then old else (cs.length, i)) := by
+  have hinv0 : AInv (adaptive0 n) := by intro last h; simp [adaptive0] at h
+  obtain ⟨a, b, c⟩ := AInv_exec cs (adaptive0 n) hn hinv0
+  simp only [adaptive0] at b c
+  have hb : (adaptiveExec (adaptive0 n) cs).n = n := b
+  have hc : (adaptiveExec (adaptive0 n) cs).t = cs.length := by
+    have := c; rw [Nat.zero_add] at this; exact this
+  obtain ⟨out, h1, _, h3, h4, _⟩ := adaptive_retain _ last l thr h a (by rw [hb]; exact hl) (by rw [hb]; exact hthr) (by rw [hb]; exact hn)
+  refine ⟨out, ?_, by rw [h3, hb], ?_⟩
+  · rw [adaptiveRun_append, List.getElem?_append_right (by rw [adaptiveRun_length]), adaptiveRun_length, Nat.sub_self]
+    simp [adaptiveRun, h1]
+  · intro i x u old hx hu ho
+    rw [h4 i x u old hx hu ho, hc]
+
+example : (adaptiveRun (adaptive0 3) ([none, thrCall (1/2) (some [0, 1, 1/2])] ++ [some ([3, 1, 2], [1/2, 1/2, 1/2])]))[2]? =
+    some (.ok [(1, 0), (2, 1), (0, 2)]) := by decide +kernel
+
 example : adaptiveRun (adaptive0 3) [none, thrCall (1/2) (some [0, 1, 1/2]), thrCall (1/2) (some [1, 1, 1]), some ([0, 1], [0, 0])] =
     [.ok [(0, 0), (0, 1), (0, 2)], .ok [(1, 0), (0, 1), (0, 2)], .ok [(1, 0), (0, 1), (0, 2)], .error .shape] := by decide +kernel
 
